@@ -89,17 +89,29 @@ func runAttackFile(t *simrt.Tape, keep bool) simrt.Outcome {
 			continue
 		}
 		// what is on the file now is what a kill -9 at this instant leaves behind
-		dec := vegeta.NewDecoder(bytes.NewReader(data))
-		n := 0
-		var derr error
-		for {
-			var x vegeta.Result
-			if derr = dec.Decode(&x); derr != nil {
-				break
+		decodeAll := func(data []byte) (int, error) {
+			dec := vegeta.NewDecoder(bytes.NewReader(data))
+			n := 0
+			for {
+				var x vegeta.Result
+				if err := dec.Decode(&x); err != nil {
+					return n, err
+				}
+				n++
 			}
-			n++
 		}
+		n, derr := decodeAll(data)
 		snapshots++
+		if derr != io.EOF && running {
+			// a read can race with one write system call that is being copied into the page cache (the file
+			// size grows page by page): a torn tail only counts if it is still there, unchanged, 5 ms later
+			time.Sleep(5 * time.Millisecond)
+			again, _ := os.ReadFile(out)
+			if len(again) != len(data) {
+				continue
+			}
+			n, derr = decodeAll(again)
+		}
 		if derr != io.EOF && torn == "" {
 			torn = fmt.Sprintf("snapshot of the output file taken while the attack was running (%d bytes) decodes to %d results and then ends with %q: the file does not end at a record boundary between two results", len(data), n, derr)
 		}
